@@ -143,6 +143,8 @@ pub fn run_name_x(rep: &mut Report, _args: &Args, cache: &mut VolCache, name: &s
     let mut scfg = SessCfg::all(unicode_build());
     scfg.props = ["C01", "C03", "C15", "C16"].into_iter().collect();
     scfg.nhandles = 1;
+    let nh = fnv_of(&[name]);
+    scfg.short_dev = if nh % 4 == 0 { Some(nh) } else { None };
     let mut src = if holes { NameSource::with_holes(name, in_dir) } else { NameSource::new(name, in_dir) };
     if holes {
         rep.count("sessions_with_released_runs", 1);
